@@ -222,6 +222,11 @@ func (h *dnsCryptHandler) ServeDNS(rw dnscrypt.ResponseWriter, r *dns.Msg) (err 
 	ctx, cancel := h.srv.requestContext()
 	defer cancel()
 
+	// The dnscrypt module runs this handler in goroutines of its own and does
+	// not recover from panics, so do it here, like the other servers do, to
+	// keep a panic in the handler from bringing the whole process down.
+	defer h.srv.handlePanicAndRecover(ctx)
+
 	ctx = ContextWithRequestInfo(ctx, &RequestInfo{StartTime: time.Now()})
 
 	nrw := NewNonWriterResponseWriter(rw.LocalAddr(), rw.RemoteAddr())
